@@ -99,13 +99,13 @@ def solve_bin_pack(
             # Find bin with least remaining space that still fits
             best_remaining = float("inf")
             for b, (remaining, _) in enumerate(bins):
-                if size <= remaining < best_remaining:
+                if size <= remaining + 1e-9 and remaining < best_remaining:
                     best_remaining = remaining
                     best_bin = b
         else:
             # First-fit: find first bin that fits
             for b, (remaining, _) in enumerate(bins):
-                if size <= remaining:
+                if size <= remaining + 1e-9:
                     best_bin = b
                     break
 
